@@ -54,12 +54,31 @@ fn target_of(d: &str) -> in_toto::models::TargetDescription {
     } else {
         (&["256"], d)
     };
+    // "<sym>.f" / ".m" / ".l": the digest of <sym> with its first / a middle / its last byte changed;
+    // "<sym>.t": that digest without its last byte - digests that are nearly the one of <sym>
+    let (sym, near) = match sym.rsplit_once('.') {
+        Some((b, n)) if ["f", "m", "l", "t"].contains(&n) => (b, n),
+        _ => (sym, ""),
+    };
     let content: &[u8] = if sym == "he" { b"" } else { sym.as_bytes() };
+    let tweak = |mut v: Vec<u8>| -> Vec<u8> {
+        let n = v.len();
+        match near {
+            "f" => v[0] ^= 0x80,
+            "m" => v[n / 2] ^= 0x01,
+            "l" => v[n - 1] ^= 0x01,
+            "t" => {
+                v.pop();
+            }
+            _ => {}
+        }
+        v
+    };
     for a in algs {
         if *a == "256" {
-            t.insert(HashAlgorithm::Sha256, HashValue::new(digest::digest(&digest::SHA256, content).as_ref().to_vec()));
+            t.insert(HashAlgorithm::Sha256, HashValue::new(tweak(digest::digest(&digest::SHA256, content).as_ref().to_vec())));
         } else {
-            t.insert(HashAlgorithm::Sha512, HashValue::new(digest::digest(&digest::SHA512, content).as_ref().to_vec()));
+            t.insert(HashAlgorithm::Sha512, HashValue::new(tweak(digest::digest(&digest::SHA512, content).as_ref().to_vec())));
         }
     }
     t
@@ -109,9 +128,14 @@ impl Ctx {
         let mut cmd = d["cmd"].as_str().unwrap_or("").to_string();
         let mut byp = d["byp"].as_str().unwrap_or("").to_string();
         let mut env = None;
+        // structure-versus-content near collision: one argument holding the text `a","b` (as signed)
+        // against the two arguments `a`, `b` (as shipped)
+        let mut cmd_extra: Vec<String> = vec![];
         // `variant` != "none": the content BEFORE the post-signing edit of that field
         match variant {
             "none" => {}
+            "cmd_requote" => cmd_extra = vec!["a\",\"b".to_string()],
+            "cmd_split" => cmd_extra = vec!["a".to_string(), "b".to_string()],
             "product" => {
                 prods.insert("zz.extra".into(), {
                     let mut t = HashMap::new();
@@ -140,7 +164,11 @@ impl Ctx {
             .name(name)
             .materials(mats)
             .products(prods)
-            .command(Command::from(cmd.as_str()))
+            .command({
+                let mut c: Vec<String> = cmd.split_whitespace().map(|t| t.to_string()).collect();
+                c.extend(cmd_extra);
+                Command::from(c)
+            })
             .byproducts(ByProducts::new().set_stdout(byp).set_stderr(String::new()).set_return_value(0))
             .env(env)
             .build()
@@ -166,7 +194,7 @@ impl Ctx {
     }
 
     fn layout_meta(&self, d: &Value, variant: &str) -> LayoutMetadata {
-        let expires = t0() + Duration::seconds(d["expires"].as_i64().unwrap());
+        let expires = instant_of(d["expires"].as_i64().unwrap());
         let mut b = LayoutMetadataBuilder::new().expires(expires).readme("readme".to_string());
         for k in d["keys"].as_array().unwrap() {
             b = b.add_key(self.km.pk(k.as_str().unwrap()).clone());
@@ -214,6 +242,16 @@ impl Ctx {
             "command" => {
                 if let Some(s) = steps.first_mut() {
                     s.expected_command = Command::from("something else");
+                }
+            }
+            "cmd_requote" | "cmd_split" => {
+                let extra: Vec<String> = if variant == "cmd_requote" { vec!["a\",\"b".to_string()] } else { vec!["a".to_string(), "b".to_string()] };
+                if let Some(s) = steps.first_mut() {
+                    let mut c = vec![format!("c.{}", s.name)];
+                    c.extend(extra);
+                    s.expected_command = Command::from(c);
+                } else {
+                    b = b.readme(format!("variant {variant}"));
                 }
             }
             "mrule" => {
@@ -267,14 +305,15 @@ impl Ctx {
             return "{\"signatures\": [ this is not json".to_string();
         }
         let edit = d["edit"].as_str().unwrap_or("none");
-        let shipped = self.wrapper(d, "none");
+        // a "requote" edit ships the split form of what was signed in joined form
+        let shipped = self.wrapper(d, if edit == "cmd_requote" { "cmd_split" } else { "none" });
         let mut signed_over = self.wrapper(d, edit);
         // a layout whose text spells `expires` in another notation is signed the way its owner would
         // sign it with this library: parse the notated text, sign what was parsed
         let fmt = d["fmt"].as_str().unwrap_or("Z");
         if d["typ"] == "layout" && fmt != "Z" && edit == "none" {
             let mut v = serde_json::to_value(&shipped).unwrap();
-            let inst = t0() + Duration::seconds(d["expires"].as_i64().unwrap());
+            let inst = instant_of(d["expires"].as_i64().unwrap());
             v["expires"] = json!(spell_instant(inst, fmt));
             if let Ok(parsed) = serde_json::from_str::<MetadataWrapper>(&v.to_string()) {
                 signed_over = parsed;
@@ -299,7 +338,7 @@ impl Ctx {
         if d["typ"] == "layout" {
             let fmt = d["fmt"].as_str().unwrap_or("Z");
             if fmt != "Z" {
-                let inst = t0() + Duration::seconds(d["expires"].as_i64().unwrap());
+                let inst = instant_of(d["expires"].as_i64().unwrap());
                 val["signed"]["expires"] = json!(spell_instant(inst, fmt));
             }
         }
@@ -530,6 +569,25 @@ impl Ctx {
 }
 
 /// RFC 3339 spellings of one instant
+/// the instant an `expires` offset (seconds from the verification time) stands for.  The specification's
+/// integers are 32-bit, so offsets beyond +-2.0e9 name calendar extremes; the map is strictly monotone,
+/// which is all the specification's comparisons need.
+pub fn instant_of(off: i64) -> DateTime<Utc> {
+    let ymd = |y, m, d, hh, mm, ss| Utc.with_ymd_and_hms(y, m, d, hh, mm, ss).unwrap();
+    match off {
+        -2_100_000_000 => ymd(1, 1, 2, 0, 0, 0),
+        -2_090_000_000 => ymd(1000, 6, 15, 12, 0, 0),
+        -2_080_000_000 => ymd(1500, 1, 1, 0, 0, 0),
+        -2_070_000_000 => ymd(1699, 12, 31, 23, 59, 59),
+        -2_060_000_000 => t0() - Duration::days(293 * 365),
+        -2_050_000_000 => t0() - Duration::days(292 * 365),
+        2_050_000_000 => t0() + Duration::days(292 * 365),
+        2_060_000_000 => t0() + Duration::days(293 * 365),
+        2_100_000_000 => ymd(9999, 12, 30, 23, 59, 59),
+        _ => t0() + Duration::seconds(off),
+    }
+}
+
 pub fn spell_instant(inst: DateTime<Utc>, fmt: &str) -> String {
     use chrono::FixedOffset;
     let (off, frac): (i32, &str) = match fmt {
